@@ -207,3 +207,33 @@ class VRT:
             return {"executions": nexec, "total_executions": total_exec, "outcomes": outcomes, "points_max": pmax,
                     "filter_size": len(filt), "restarts": restarts, "nodes": nodes, "capped": capped,
                     "conflict_events": conf_events, "pruned": pruned, "stopped_early": stopped, "region_states": len(claimed)}
+
+
+def check_schedule_independence(V, kernel, ints, dbls, floats_at, inouts, threads=(2, 3), bound=2, max_exec=200000, void=False):
+    """Explore all schedules (within the bound) of one kernel call and compare every outcome with the single-thread result.
+    `ints` may contain numpy arrays (passed by address); `inouts` lists the arrays whose content is reset before every
+    execution (from their initial copy) and observed afterwards.  Returns (reference, list of per-T result dicts, bad) where
+    bad is a list of (T, schedule) whose outcome differs."""
+    arrays = [a for a in ints if isinstance(a, np.ndarray)]
+    V.register(*arrays)
+    init = [a.copy() for a in inouts]
+
+    def prepare():
+        for a, b in zip(inouts, init):
+            a[...] = b
+    call = V.kernel(kernel, ints, dbls=dbls, floats_at=floats_at)
+
+    def observe(ret):
+        # a void kernel leaves garbage in the return register
+        return (0 if void else int(ret),) + tuple(a.tobytes() for a in inouts)
+    prepare()
+    ref = observe(V.run(call, 1, [])["ret"])
+    out, bad = [], []
+    for T in threads:
+        r = V.explore(prepare, call, observe, T, bound, max_exec=max_exec, early_stop=lambda o: o != ref)
+        out.append(dict(r, T=T))
+        for obs, sched in r["outcomes"].items():
+            if obs != ref:
+                bad.append((T, sched))
+    prepare()
+    return ref, out, bad
